@@ -24,6 +24,27 @@ CHECK_DEADLOCK FALSE
 """
 
 
+SHARED_NOTES = {"blocking_eagain_at_once", "asked_blocking"}
+
+
+def duplex_scenarios(reps):
+    """NioShared.tla on the real code: a reader coroutine is parked in a hooked recv on the descriptor (the runtime has
+    forced it non-blocking) while a write-family call is made on it by a thread or by another coroutine"""
+    out = []
+    for rep in range(reps):
+        for call, vec, msg, shape in (("send", False, False, [3]), ("write", False, False, [3]), ("sendto", False, False, [3]),
+                                      ("writev", True, False, [1, 2]), ("sendmsg", True, True, [1, 2])):
+            for where in ("thread", "co"):
+                base = {"call": call, "shape": shape, "vec": vec, "msg": msg, "isRead": False, "nonblock": False, "where": where}
+                # the kernel says would-block once: a caller that left the descriptor blocking must be made to wait
+                out.append(dict(base, duplex={"reader_limit_ms": 200}, script=[{"k": "wouldblock", "n": 0}, {"k": "xfer", "n": 3}], src="duplex-wait"))
+                # the reader gives up and leaves while the writer is still in its retry loop
+                out.append(dict(base, duplex={"reader_limit_ms": 25}, script=[{"k": "wouldblock", "n": 0}] * 5 + [{"k": "xfer", "n": 3}], src="duplex-reader-leaves-first"))
+                # the writer is served at once and leaves first
+                out.append(dict(base, duplex={"reader_limit_ms": 60}, script=[{"k": "xfer", "n": 3}], src="duplex-writer-leaves-first"))
+    return out
+
+
 def calls_for(sc):
     if sc["isRead"]:
         if not sc["vec"]:
@@ -112,6 +133,8 @@ def run(pid, tier):
     cov = {}
     bindir = build_harness()
     conn_scs = conn_stage(v, wd, tier, cov, bindir) if pid == "C18" else []
+    if pid == "C18":
+        mc_runs("NioShared", [("MC_NioShared.cfg", None), ("MC_NioShared_mode_from_flag.cfg", "any")], tier, cov)
     insts = [("MC_Nio.cfg", None)] + [("MC_Nio_%s.cfg" % d, "any") for d in DEVS]
     mc_runs("MC_Nio", insts, tier, cov)
     thorough = tier == "thorough"
@@ -134,10 +157,12 @@ def run(pid, tier):
     cap = 40000 if thorough else 1600
     if len(scs) > cap:
         scs = rng.sample(scs, cap)
+    if pid == "C18":
+        scs += duplex_scenarios(3 if thorough else 1)
     for i, s in enumerate(scs):
         s["id"] = i + 1
         s["limit_ms"] = 40 if any(x["k"] == "timeout" for x in s["script"]) else 0
-        s["where"] = "co" if (i % 7 == 0 and not s["nonblock"]) else "thread"
+        s.setdefault("where", "co" if (i % 7 == 0 and not s["nonblock"]) else "thread")
         s["timeout_ms"] = 6000
         # errno around successful kernel calls: a real kernel leaves it alone (the scripted one does too);
         # every third scenario starts with a stale error number in errno, every fifth lets successful
@@ -149,6 +174,7 @@ def run(pid, tier):
     byid = {s["id"]: s for s in scs}
     mine = CLAUSES[pid] | DEATH
     other = {}
+    shared = {}
     for x in info["viols"]:
         sc = byid.get(x[2], {})
         kinds = [k["k"] for k in sc.get("script", [])]
@@ -158,10 +184,14 @@ def run(pid, tier):
                "where": sc.get("where"), "driver": "nio", "scenario": sc}
         if x[1] in mine:
             v.add(rec)
+        elif x[1] in SHARED_NOTES:
+            shared[x[1]] = shared.get(x[1], 0) + 1
         else:
             other[x[1]] = other.get(x[1], 0) + 1
     if other:
         v.note("clauses of other properties observed: %s" % other)
+    if shared:
+        v.note("shared descriptor (NioShared.tla), observations outside the listed properties: %s" % shared)
     seg = first_segment(tpath, "nreset", "nend", want=lambda s: any(r.get("ev") == "inner_r" and r.get("resp") == "xfer" for r in s) and
                         any(r.get("ev") == "call_e" and r.get("ret", -1) > 0 for r in s))
     if seg:
